@@ -466,6 +466,14 @@ func c13One(k *core.Case, base *abs.Msg, ins []abs.Payload, pos []int, o *ref.Op
 	}
 	k.Eval(1)
 	w := M{"base": msgJSON(base), "wire": core.HexClip(wire, 4096), "inserted_types": insTypes(ins), "positions": pos, "any_critical": anyCrit, "case": tag}
+	if k.Index%4 == 2 {
+		// an application that logged these very payload types before (a skipped payload seen earlier on this SA, the
+		// type named in an UNSUPPORTED_CRITICAL_PAYLOAD notification it received)
+		for _, x := range ins {
+			logTypeCodes(int(x.Kind), 1)
+		}
+		k.Count("inserted_payload_types_logged_before_decoding", 1)
+	}
 	d, derr, p := libDecode(wire)
 	if p != nil {
 		k.Violate("panic", "decode: "+p.Sig(), "Decode panicked", panicData(p, w))
